@@ -424,3 +424,104 @@ def c11_battery(binary):
                 shutil.rmtree(d, ignore_errors=True)
     _memo[("c11", binary)] = devs
     return devs
+
+
+# ------------------------------------------------------------------ C06: replica counting (links, isolation, filter, root spelling)
+
+def c06_battery(binary):
+    """one tree with copies, hard links, a symlink and three roots; the reported groups under many option sets and root spellings are
+    compared with the counting rule of the documentation (replica = hard-link set, path with --match-links, root with --isolate)"""
+    if ("c06", binary) in _memo:
+        return _memo[("c06", binary)]
+    devs = []
+    d = tempfile.mkdtemp(prefix="c06b.", dir="/var/tmp")
+    try:
+        env = mkenv(d)
+        os.makedirs(os.path.join(d, "tmp"))
+        w = os.path.join(d, "w")
+        for r in ("r1", "r2", "r3", "r4", "other"):
+            os.makedirs(os.path.join(w, r))
+        A, X, U, T = b"A" * 100, b"X" * 90, b"U" * 80, b"T" * 70
+        files = {"r1/a": A, "r1/a2": A, "r2/b": A, "r3/c": A, "r1/p": X, "r1/q": X, "r2/u": U, "r4/t": T}
+        for rel, data in files.items():
+            open(os.path.join(w, rel), "wb").write(data)
+        os.link(os.path.join(w, "r1/a"), os.path.join(w, "r1/h"))
+        os.link(os.path.join(w, "r4/t"), os.path.join(w, "r4/t2"))
+        os.symlink("t", os.path.join(w, "r4/l"))
+        for sub in ("x/r", "y/r"):
+            os.makedirs(os.path.join(w, sub))
+            open(os.path.join(w, sub, "e_" + sub[0]), "wb").write(b"E" * 60)
+        os.symlink(os.path.join(w, "r1"), os.path.join(w, "r1link"))
+        content = dict(files)
+        content["r1/h"] = A
+        content["r4/l"] = T
+        content["r4/t2"] = T
+        content["x/r/e_x"] = b"E" * 60
+        content["y/r/e_y"] = b"E" * 60
+
+        def expected(roots, isolate, match_links, symlinks, rf_over=None, rf_under=None):
+            members = [rel for rel in content if any(rel.startswith(r + "/") for r in roots) and (symlinks or rel != "r4/l")]
+            classes = {}
+            for rel in members:
+                classes.setdefault(content[rel], []).append(rel)
+            out = []
+            for cls in classes.values():
+                keys = set()
+                for rel in cls:
+                    st = os.stat(os.path.join(w, rel))
+                    if isolate:
+                        keys.add(("root", [i for i, r in enumerate(roots) if rel.startswith(r + "/")][0]))
+                    elif match_links:
+                        keys.add(("path", rel))
+                    else:
+                        keys.add(("id", st.st_dev, st.st_ino))
+                n = len(keys)
+                ok = (n < rf_under) if rf_under is not None else (n > (1 if rf_over is None else rf_over))
+                if ok:
+                    out.append(sorted(os.path.basename(x) for x in cls))
+            return sorted(out)
+
+        def run(args, cwd=w):
+            r = subprocess.run([binary, "group", "-f", "json"] + args, cwd=cwd, stdout=subprocess.PIPE, stderr=subprocess.PIPE, env=env, timeout=120)
+            try:
+                gs = json.loads(r.stdout.decode(errors="replace")).get("groups", [])
+            except Exception:   # noqa
+                err = r.stderr.decode(errors="replace")
+                if "replication factor" in err:
+                    return None         # the option combination is refused up front (isolate with too few roots): nothing to compare
+                return [["<no report: %s>" % err[-120:]]]
+            return sorted(sorted(os.path.basename(f) for f in g["files"]) for g in gs)
+
+        def check(tag, args, want, cwd=w):
+            got = run(args, cwd)
+            if got is not None and got != want:
+                devs.append({"scenario": tag, "options": args, "reported": got, "documented": want})
+
+        R = ["r1", "r2", "r3", "r4"]
+        for extra, kw in (([], {}), (["--rf-over", "3"], {"rf_over": 3}), (["--rf-over", "4"], {"rf_over": 4}), (["--unique"], {"rf_under": 2}),
+                          (["--rf-under", "5"], {"rf_under": 5}), (["--rf-over", "0"], {"rf_over": 0})):
+            check("plain counting (hard links are one replica)", extra + R, expected(R, False, False, False, **kw))
+            check("--match-links", ["--match-links"] + extra + R, expected(R, False, True, False, **kw))
+            check("--isolate", ["--isolate"] + extra + R, expected(R, True, False, False, **kw))
+            check("--isolate --match-links", ["--isolate", "--match-links"] + extra + R, expected(R, True, True, False, **kw))
+            check("--symbolic-links", ["-S"] + extra + R, expected(R, False, False, True, **kw))
+            check("--symbolic-links --match-links", ["-S", "--match-links"] + extra + R, expected(R, False, True, True, **kw))
+        # pipelines that end with the permissive filter
+        for extra in (["--skip-content-hash"], ["--transform", "cat"]):
+            check("plain counting, %s" % extra[0], extra + R, expected(R, False, False, False))
+            check("--isolate, %s" % extra[0], ["--isolate"] + extra + R, expected(R, True, False, False))
+        # root spellings
+        want = expected(["r1", "r2"], True, False, False)
+        want_u = expected(["r1", "r2"], True, False, False, rf_under=2)
+        for sp in (["./r1", "./r2"], ["r1/", "r2/"], ["r1/../r1", "r2"], ["r1link", "r2"], [os.path.join(w, "r1"), os.path.join(w, "r2")], ["r3/../r1", "./r2/."]):
+            check("--isolate with roots spelled %s" % sp, ["--isolate"] + sp, want)
+            check("--isolate --unique with roots spelled %s" % sp, ["--isolate", "--unique"] + sp, want_u)
+        for extra, kw in (([], {}), (["--unique"], {"rf_under": 2})):
+            check("--isolate with two roots whose last directory names are equal", ["--isolate"] + extra + ["x/r", "y/r"], expected(["x/r", "y/r"], True, False, False, **kw))
+            check("--isolate with nested-looking roots", ["--isolate"] + extra + ["x/r", "y/r", "r1"], expected(["x/r", "y/r", "r1"], True, False, False, **kw))
+        check("--isolate with --base-dir and relative roots, run from another directory", ["--isolate", "--base-dir", w, "r1", "r2"], want, cwd=os.path.join(w, "other"))
+        check("--isolate --unique with --base-dir and relative roots", ["--isolate", "--unique", "--base-dir", w, "r1", "r2"], want_u, cwd=os.path.join(w, "other"))
+    finally:
+        shutil.rmtree(d, ignore_errors=True)
+    _memo[("c06", binary)] = devs
+    return devs
